@@ -10,7 +10,7 @@ FINISH = dict(rule="R1 MC_Dots (segment algebra under normalisation) ; R3 31 bas
 
 def run(out, sc, tier, seed):
     run_model(out, sc, "MC_Dots", ["Inv_IsRfc524", "Inv_SegsForm"], ["MaxLen = 4"], label="MC_Dots")
-    p = {"gen": "pathalg", "seed": seed, "n": 12000 if tier == "quick" else 300000}
+    p = {"gen": "pathalg", "seed": seed, "n": 12000 if tier == "quick" else 100000}
     shards = []
     for be in ("c", "py"):
         shards += run_driver(sc, "alt", p, "alt", backend=be, nslices=10, shard_size=1500)
